@@ -154,6 +154,15 @@ def handle : List String → Option String
         | .ok (o, rest) => "1 " ++ h o.nOut ++ " " ++ hs o.coord ++ " " ++ h o.denom ++ " " ++ toHex (st.length - rest.length)
         | .fail => "0"
         | .ub => "ub")
+  | "chkmul" :: r :: k :: c :: n :: es => do
+      -- chkmul r k c N  A(r*k) B(k*c) C(r*c): 1 iff A·B ≡ C (mod N)
+      let r ← parseHexNat? r; let k ← parseHexNat? k; let c ← parseHexNat? c; let n ← parseHexInt? n
+      let es ← parseInts? es
+      if es.length ≠ r * k + k * c + r * c ∨ k = 0 ∨ c = 0 then none else
+      let A := toMat k (es.take (r * k))
+      let B := toMat c ((es.drop (r * k)).take (k * c))
+      let C := toMat c (es.drop (r * k + k * c))
+      pure (if matMulCheck A B C c n then "1" else "0")
   | "chkker2e" :: e :: es => do
       let e ← parseHexNat? e; let es ← parseInts? es
       if es.length ≠ 20 then none else
